@@ -387,6 +387,9 @@ def cellValuesWithBoundaries1D(phi, BC):
         (BC.right.c.item()-phi[-1]*(-BC.right.a.item()/dx_end+BC.right.b.item()/2))/(BC.right.a.item()/dx_end+BC.right.b.item()/2)])
     else:
         phiBC = np.hstack([phi[-1], phi, phi[0]])
+        if phiBC.dtype.kind in 'iub':
+            # as floats: an integer array would make later assignments truncate
+            phiBC = phiBC.astype(float)
     return phiBC
 
 
